@@ -5,11 +5,11 @@ C09 driver: parses the case lines that the harness executes against the real bac
 Case lines (shared with harness/c09/c09.c):
   load reg /c09/reg | mode net|console | meh ok|raise|recurse | clone o<k> /c09/obj
   script <oid> <kind> <ops>      oid: u<k> | o<k> | k<k> (k-th connect attempt: ops = err | rej)
-                                 kind: logon | input | cmd:<verb> | netdead | hb | co:<tag> | reset | connect
+                                 kind: logon | input | cmd:<verb> | netdead | hb | co:<tag> | reset | it:<tag> | connect
   vapply o<k> do_ops <ops>       ops at set-up time
   step <action>...               tick[:<dt>] conn:c<k> send:c<k>:<text> close:c<k> reset:c<k> cin:<text> idle
   run
-ops (';' separated): ok | err | cerr | dest:<oid|me> | co:<delay>:<tag> | hb:<n> | w:<text> | meh:<mode>
+ops (';' separated): ok | err | cerr | dest:<oid|me> | co:<delay>:<tag> | hb:<n> | w:<text> | meh:<mode> | it:<tag>
 -/
 import NV.Common.Proto
 import NV.C09.Model
@@ -41,6 +41,7 @@ def parseOp (s : String) : Option Op :=
   | ["hb", n] => n.toNat?.map Op.hb
   | ["w", t] => some (.w t)
   | ["meh", m] => (parseMeh m).map Op.meh
+  | ["it", tag] => some (.it tag)
   | _ => none
 
 def parseOps (s : String) : Option (List Op) :=
@@ -56,6 +57,7 @@ def parseKind (s : String) : Option Kind :=
   | ["hb"] => some .hb
   | ["co", t] => some (.co t)
   | ["reset"] => some .reset
+  | ["it", t] => some (.it t)
   | _ => none
 
 def parseClient (s : String) : Option Nat :=
@@ -179,6 +181,8 @@ def render : Ev → String
   | .tHb o => s!"t hb {o.name}"
   | .tCo o t => s!"t co {o.name} {t}"
   | .tReset o => s!"t reset {o.name}"
+  | .tIt o t l => (s!"t it {o.name} {t} {l}").trimAsciiEnd.toString
+  | .xIt o t => s!"x it {o.name} {t}"
   | .xErr who => s!"x err {who}"
   | .xCerr o => s!"x cerr {o.name}"
   | .xDest o t => s!"x dest {o.name} {t.name}"
@@ -207,6 +211,9 @@ def parseEv (line : String) : Ev :=
   | ["t", "hb", o] => match parseOid o with | some o => .tHb o | none => .crash line
   | ["t", "co", o, t] => match parseOid o with | some o => .tCo o t | none => .crash line
   | ["t", "reset", o] => match parseOid o with | some o => .tReset o | none => .crash line
+  | ["t", "it", o, t] => match parseOid o with | some o => .tIt o t "" | none => .crash line
+  | ["t", "it", o, t, l] => match parseOid o with | some o => .tIt o t l | none => .crash line
+  | ["x", "it", o, t] => match parseOid o with | some o => .xIt o t | none => .crash line
   | ["x", "err", who] => .xErr who
   | ["x", "cerr", o] => match parseOid o with | some o => .xCerr o | none => .crash line
   | ["x", "dest", o, t] => match parseOid o, parseOid t with | some o, some t => .xDest o t | _, _ => .crash line
